@@ -17,8 +17,8 @@ theorems assume fewer than 2³² frames (trusted base of `harness/props/c18.py`)
 
 Outside the model, exercised by the harness only: the memory layout of the arrays (C / Fortran /
 strided / reversed views — the model's arrays are index functions), OS thread scheduling, floating
-point (the model returns exact rational terms), `weighted_mi`'s trailing `np.clip(·, 0, inf)` and
-its int16 default state counts (see `wmiValidate`).
+point (the model returns exact rational terms) and `weighted_mi`'s trailing `np.clip(·, 0, inf)`
+(see `wmiValidate`; its default state counts `int(features.max()) + 1` are modelled).
 -/
 namespace C18
 open Ens Ens.Info Ens.Sched Ens.InfoR
